@@ -90,7 +90,8 @@ def build():
     for name, cond in (("is_new_type", "kind(type_) == K_NEWTYPE"), ("is_union", "kind(type_) == K_UNION"), ("is_tuple", "kind(type_) == K_TUPLE or is_bare_tuple(type_)"),
                        ("is_collection", "is_coll(type_)"), ("is_mutable_collection", "is_mut(type_)"),
                        ("is_optional", "kind(type_) == K_UNION and union_has_none(type_)")):
-        A(Contract(f"{TM_}:{name}", params={"type_": "Ty"}, returns="bool", trusted=True, trusted_reason=why, props=P, ensures=[f"result == ({cond})"]))
+        A(Contract(f"{TM_}:{name}", params={"type_": "Ty"}, returns="bool", trusted=True, props=P, ensures=[f"result == ({cond})"],
+                   trusted_reason=("callee summary; proved in contracts.typing_area as " + name + "#body against the kind model" + (" (union_has_none(t) abbreviates: some argument of t has kind NONETYPE)" if name == "is_optional" else "")) if name in ("is_optional", "is_new_type") else why))
     A(Contract(f"{TM_}:unwrap_newtype", params={"type_": "Ty"}, returns="Ty", trusted=True, props=P,
                trusted_reason="callee summary; proved in contracts.typing_area as unwrap_newtype#body against the kind model (isinstance(t, NewType) is kind == NEWTYPE, t.__supertype__ is inner(t))",
                ensures=["implies(kind(type_) == K_NEWTYPE, result == inner(type_))", "implies(kind(type_) != K_NEWTYPE, result == type_)"]))
